@@ -1,2 +1,50 @@
-From BMC Require Import Base.
-Theorem C12_placeholder : True. Proof. exact I. Qed.
+(* C12 — the cipher suite used is the caller's first supported preference, never another. *)
+From BMC Require Import Base Prim Layers Layers2 Serialize Packet Conn Hmac Handshake HandshakeProofs.
+From BMCProps Require Import Tie.
+
+(* one preference: proposed as is, without discovery *)
+Theorem C12_single : forall x a, determine [x] a = Chosen x false.
+Proof. exact determine_single. Qed.
+(* no preference: as if the caller had given the defaults, which are suite 17 then suite 3 in the source now *)
+Theorem C12_defaults : forall a, determine [] a = determine default_suites a.
+Proof. exact determine_default. Qed.
+Theorem C12_defaults_tie : map (fun s => (su_auth s, su_integ s, su_conf s)) default_suites = G.defaultCipherSuites
+                           /\ G.CipherSuite17 = (3, 4, 1) /\ G.CipherSuite3 = (1, 1, 1).
+Proof. split; [exact tie_default_suites|split; reflexivity]. Qed.
+(* several preferences (lists of any length, any advertised list): the chosen suite is the first one the BMC
+   advertises - everything before it in the list is not advertised - after discovery *)
+Theorem C12_first_supported : forall x y rest a s d,
+  determine (x :: y :: rest) a = Chosen s d ->
+  d = true /\ exists pre post, x :: y :: rest = pre ++ s :: post /\
+                               Forall (fun z => advertised a z = false) pre /\ advertised a s = true.
+Proof. exact determine_first_supported. Qed.
+Theorem C12_none_supported : forall x y rest a,
+  determine (x :: y :: rest) a = NoSupportedSuite <-> Forall (fun z => advertised a z = false) (x :: y :: rest).
+Proof. exact determine_none. Qed.
+
+(* a session is only returned if the Open Session Response confirmed exactly the proposed algorithms (whatever
+   else was received), and the session uses them; integrity / confidentiality None never yield a session *)
+Theorem C12_confirm : forall o s random sc1 sc2 sc3 sent e,
+  new_session o s random sc1 sc2 sc3 = (sent, inl e) ->
+  es_suite e = s /\ su_conf s = 1 /\ su_integ s <> 0 /\
+  exists rsp b1 p1, In (Some b1) sc1 /\ payload_verdict b1 = PAccept p1 /\
+                    decode_opensessionrsp opensessionrsp_zero p1 = Ok rsp /\
+                    ap_alg (os_auth rsp) = su_auth s /\ ap_alg (os_integ rsp) = su_integ s /\ ap_alg (os_conf rsp) = su_conf s.
+Proof.
+  intros o s random sc1 sc2 sc3 sent e H.
+  destruct (new_session_ok_inv _ _ _ _ _ _ _ _ H) as [rsp [m2 [m4 [h [icvlen [b1 [p1 [b2 [p2 [b3 [p3 F]]]]]]]]]]].
+  destruct F as ((I1 & V1 & D1) & _ & _ & _ & (A1 & A2 & A3) & _ & _ & _ & _ & _ & _ & _ & _ & (S1 & S2 & S3)).
+  repeat split; auto. exists rsp, b1, p1. repeat split; auto.
+Qed.
+(* and a response carrying any other triple is an error, never a fault (C05_handshake) *)
+Theorem C12_other_triple_is_error : forall o s random sc1 sc2 sc3 sent rsp b1 p1,
+  sc1 = [Some b1] -> payload_verdict b1 = PAccept p1 -> decode_opensessionrsp opensessionrsp_zero p1 = Ok rsp ->
+  (ap_alg (os_auth rsp), ap_alg (os_integ rsp), ap_alg (os_conf rsp)) <> (su_auth s, su_integ s, su_conf s) ->
+  forall e, new_session o s random sc1 sc2 sc3 <> (sent, inl e).
+Proof.
+  intros o s random sc1 sc2 sc3 sent rsp b1 p1 -> V D Hne e H.
+  destruct (new_session_ok_inv _ _ _ _ _ _ _ _ H) as [rsp' [m2 [m4 [h [icvlen [b1' [p1' [b2 [p2 [b3 [p3 F]]]]]]]]]]].
+  destruct F as ((I1 & V1 & D1) & _ & _ & _ & (A1 & A2 & A3) & _).
+  destruct I1 as [E|[]]. injection E as <-. rewrite V in V1. injection V1 as <-. rewrite D in D1. injection D1 as <-.
+  apply Hne. rewrite A1, A2, A3. reflexivity.
+Qed.
